@@ -21,7 +21,16 @@ def _roots(N):
         six = [SymC(1, 0), SymC(SymR(1) / 2, h), SymC(SymR(-1) / 2, h), SymC(-1, 0),
                SymC(SymR(-1) / 2, -h), SymC(SymR(1) / 2, -h)]
         return six if N == 6 else six[::2]
-    raise core.Unsupported(f"exact DFT stub: size {N} not supported (1,2,3,4,6)")
+    if N == 8:
+        h = core.sym_sqrt(SymR(2)) / 2
+        return [SymC(1, 0), SymC(h, h), SymC(0, 1), SymC(-h, h), SymC(-1, 0), SymC(-h, -h), SymC(0, -1), SymC(h, -h)]
+    if N == 12:
+        r3 = core.sym_sqrt(SymR(3))
+        h = r3 / 2
+        half = SymR(1) / 2
+        return [SymC(1, 0), SymC(h, half), SymC(half, h), SymC(0, 1), SymC(-half, h), SymC(-h, half),
+                SymC(-1, 0), SymC(-h, -half), SymC(-half, -h), SymC(0, -1), SymC(half, -h), SymC(h, -half)]
+    raise core.Unsupported(f"exact DFT stub: size {N} not supported (1,2,3,4,6,8,12)")
 
 
 def _dft_axis(a, axis, inverse):
